@@ -5,6 +5,8 @@ CONSTANTS
   GenActs <- R_Acts
   MaxSteps = 6
   DrainMax = 0
+  Prelude = "none"
+  GenStreams = {1, 2}
   UseCls = FALSE
   DrawStreams <- R_DrawStreams
   DrawSpaces <- R_DrawSpaces
@@ -25,6 +27,7 @@ CONSTANTS
   Burst <- NoLimit
   BroadcastDedup = TRUE
   FIX_PruneEmpty = TRUE
+  FIX_Recheck = TRUE
   AllowLate = TRUE
   TrackEvicted = FALSE
   AtomicCheck = FALSE
